@@ -424,6 +424,7 @@ impl Prop for C04 {
                     format!("{pre}{}", d.laid.text)
                 }
                 5 => {
+                    st.class("huge-line");
                     // a single line longer than 65535 bytes with multi-byte text, then a small document
                     let n = 33_000 + s.below(2000);
                     format!("/* {} */ package p; interface I {{ void f(in String key); }} ", "\u{e9}".repeat(n))
